@@ -29,7 +29,7 @@ class RecSession:
         self.log.append(('started',))
 
     def data_received(self, data, datatype):
-        self.log.append(('data', bytes(data), datatype))
+        self.log.append(('data', data if isinstance(data, str) else bytes(data), datatype))
 
     def eof_received(self):
         self.log.append(('eof',))
